@@ -212,11 +212,26 @@ def _scribble(flavour: str, buf: t.Any) -> t.Optional[str]:
     return None
 
 
+def _mk(m: t.Any) -> str:
+    """A message as a comparable string; very large ones (MB-sized values) as a digest of that string."""
+    x = A.src(m)
+    if len(x) <= 65536:
+        return x
+    import hashlib
+
+    return f"<{type(m).__name__} {len(x)} chars sha256 {hashlib.sha256(x.encode('utf-8', 'surrogatepass')).hexdigest()}>"
+
+
 def column_set(n: int, ends: t.List[int], sparse: bool) -> t.List[int]:
     """All columns, or -- for streams too long for (n+1)(n+2)/2 edges -- the columns around every
     header and PDU boundary (where every branch of the reassembly code is decided)."""
     if not sparse:
         return list(range(n + 1))
+    if n > 2_000_000:  # multi-megabyte streams: the header, the ends and every PDU boundary only
+        cols = set(range(0, 7)) | {n - 2, n - 1, n, n // 2}
+        for e in ends:
+            cols |= {c for c in (e - 1, e, e + 1, e + 3) if 0 <= c <= n}
+        return sorted(cols)
     cols = set(range(0, min(n, 14) + 1)) | set(range(max(0, n - 4), n + 1))
     wide = len(ends) <= 6
     for e in [0] + ends:
@@ -244,7 +259,7 @@ def _run_rest(sess_obj: t.Any, s: bytes, j: int, cuts: t.List[int]) -> t.Any:
     pos = j
     for q in cuts + [len(s)]:
         try:
-            obs.append([A.src(m) for m in c.receive(s[pos:q])])
+            obs.append([_mk(m) for m in c.receive(s[pos:q])])
         except BaseException as e:  # noqa: BLE001
             obs.append(("raises", type(e).__name__))
             break
@@ -306,7 +321,7 @@ def explore_stream(st: Stream, flavours: t.List[str]) -> evid.Local:
                 return loc
         col_sess[j] = c
         col_state[j] = A.freeze(c)
-        col_msgs[j] = [A.src(m) for m in msgs]
+        col_msgs[j] = [_mk(m) for m in msgs]
         loc.add("states")
     loc.distinct.add((st.role, st.note, n))
     probe_cache: t.Dict[t.Any, t.Optional[str]] = {}
@@ -325,12 +340,12 @@ def explore_stream(st: Stream, flavours: t.List[str]) -> evid.Local:
                 except BaseException as e:  # noqa: BLE001
                     loc.violation(f"chunk-raises:{type(e).__name__}:{fl}", f"receive raised {type(e).__name__} for chunk [{k}:{j}] ({fl}): {e}", {**case, "cuts": cuts, "flavour": fl})
                     continue
-                snap = [A.src(m) for m in msgs]
+                snap = [_mk(m) for m in msgs]
                 why = _scribble(fl, buf)
                 if why:
                     loc.violation(f"buffer-export:{fl}", why, {**case, "cuts": cuts, "flavour": fl})
                     continue
-                after = [A.src(m) for m in msgs]
+                after = [_mk(m) for m in msgs]
                 if after != snap:
                     loc.violation(f"returned-message-aliases-input:{fl}", f"a returned message changed when the caller reused its {fl} buffer", {**case, "cuts": cuts, "flavour": fl})
                     continue
@@ -365,7 +380,7 @@ def explore_stream(st: Stream, flavours: t.List[str]) -> evid.Local:
                     except BaseException as e:  # noqa: BLE001
                         loc.violation(f"rest-of-stream-raises:{type(e).__name__}:{fl}", f"after a first chunk [0:{j}] the rest of a well-formed stream raised {type(e).__name__}: {e}", {**case, "cuts": cuts, "flavour": fl})
                         continue
-                    if [A.src(m) for m in msgs] != snap:
+                    if [_mk(m) for m in msgs] != snap:
                         loc.violation("returned-message-changed-by-later-delivery", "a later delivery changed a message already returned", {**case, "cuts": cuts, "flavour": fl})
     return loc
 
